@@ -12,10 +12,13 @@ Line-protocol front end of the connection machine (C11, C12).
            D:<mode>     drain() of the current transport  W:<mode>     wait_closed() of the current transport
            Q:<n>        n requests queued                 P:d:<addr> | P:m:<i> | P:t:<i>  park a task
            A:<ms>       advance virtual time              Z            close()
+           G:<addr>     a subscriber of the device-name event of addr blocks      R   every such subscriber returns
+           S:<k>        the peer sends the first k bytes of a frame and stalls: nothing happens in the machine (the
+                        read in progress keeps its deadline; the read timeout is per `read()` call)
 
 answer: one segment per event, joined by `|`:  <outputs>#<state>
   outputs  `;`-joined  <time>/<name>/<args>   in emission order
-  state    c,w,wa,p,k,l,r,s,d,b,q,t,z,zt,tie
+  state    c,w,wa,p,k,l,r,s,rq,d,b,q,rs,t,z,zt,tie
 -/
 namespace PlumVerif.Conn
 
@@ -52,6 +55,9 @@ def parseHEv (w : String) : Option HEv :=
   | ["P", "t", i] => do let i ← i.toNat?; pure (.ext (.park (.thermo i)))
   | ["A", n] => do let n ← n.toNat?; pure (.advanceBy n)
   | ["Z"] => some (.ext .close)
+  | ["G", a] => do let a ← a.toNat?; pure (.ext (.gate a))
+  | ["R"] => some (.ext .release)
+  | ["S", k] => do let _ ← k.toNat?; pure (.ext (.advance 0))
   | _ => none
 
 def b2s (b : Bool) : String := if b then "1" else "0"
@@ -67,6 +73,7 @@ def Out.show : Nat × Out → Option String
   | (t, .cfail) => some s!"{t}/cfail"
   | (t, .closed) => some s!"{t}/closed"
   | (_, .fault) => none
+  | (_, .put _ _) => none
 
 def showState (s : St) (tie : Bool) : String :=
   let w := match s.writer with | some t => (if s.wopen then toString t else "-") | none => "-"
@@ -78,7 +85,7 @@ def showState (s : St) (tie : Bool) : String :=
     | .wclosing t0 _ => ("w", s.now - t0)
     | .done t0 t1 => ("d", t1 - t0)
   s!"c={b2s s.connected},w={w},wa={wa},p={s.producers},k={s.consumers},l={lostTasks s},r={connTasks s}," ++
-  s!"s={setupTasks s},d={devOwnTasks s},b={subOwnTasks s},q={s.writeQ.length},t={s.now},z={z},zt={zt},tie={b2s tie}"
+  s!"s={setupTasks s},rq={reqTasks s},d={devOwnTasks s},b={subOwnTasks s},q={s.writeQ.length},rs={s.readQ.length},t={s.now},z={z},zt={zt},tie={b2s tie}"
 
 def runH (s : St) : List HEv → List String
   | [] => []
